@@ -420,7 +420,11 @@ func chTryRecv(ch *channel) (v value, ok bool, success bool) {
 
 func chSend(ch *channel, v value) {
 	S.switchPoint("send")
+	if ch != nil {
+		raceRelease(ch)
+	}
 	if chTrySend(ch, v) {
+		raceAcquire(ch)
 		return
 	}
 	if ch == nil {
@@ -432,11 +436,13 @@ func chSend(ch *channel, v value) {
 	if sel.panic != "" {
 		panic(targetRuntimeError{sel.panic})
 	}
+	raceAcquire(ch)
 }
 
 func chRecv(ch *channel) (value, bool) {
 	S.switchPoint("recv")
 	if v, ok, success := chTryRecv(ch); success {
+		raceAcqRel(ch)
 		return v, ok
 	}
 	if ch == nil {
@@ -445,6 +451,7 @@ func chRecv(ch *channel) (value, bool) {
 	sel := &selState{}
 	ch.recvq = append(ch.recvq, &waiter{sel: sel})
 	S.waitUntil(func() bool { return sel.fired }, fmt.Sprintf("chan receive (chan#%d)", ch.id))
+	raceAcqRel(ch)
 	if !sel.ok {
 		return zero(ch.elem), false
 	}
@@ -459,6 +466,7 @@ func chClose(ch *channel) {
 		panic(targetRuntimeError{"close of closed channel"})
 	}
 	ch.closed = true
+	raceRelease(ch)
 	for {
 		w := popWaiter(&ch.recvq)
 		if w == nil {
@@ -487,6 +495,13 @@ type selCase struct {
 // received value and ok.
 func chSelect(cases []selCase, blocking bool) (int, value, bool) {
 	S.switchPoint("select")
+	if R != nil {
+		for _, c := range cases {
+			if c.send && c.ch != nil {
+				raceRelease(c.ch)
+			}
+		}
+	}
 	var ready []int
 	for i, c := range cases {
 		if c.send && chCanSend(c.ch) || !c.send && chCanRecv(c.ch) {
@@ -503,12 +518,14 @@ func chSelect(cases []selCase, blocking bool) (int, value, bool) {
 			if !chTrySend(c.ch, c.val) {
 				panic(engineError{"select: ready send failed"})
 			}
+			raceAcquire(c.ch)
 			return i, nil, false
 		}
 		v, ok, success := chTryRecv(c.ch)
 		if !success {
 			panic(engineError{"select: ready recv failed"})
 		}
+		raceAcqRel(c.ch)
 		return i, v, ok
 	}
 	if !blocking {
@@ -545,6 +562,7 @@ func chSelect(cases []selCase, blocking bool) (int, value, bool) {
 	if sel.panic != "" {
 		panic(targetRuntimeError{sel.panic})
 	}
+	raceAcqRel(cases[sel.which].ch)
 	if cases[sel.which].send {
 		return sel.which, nil, false
 	}
@@ -584,12 +602,16 @@ func mutexLock(p *value) {
 	S.waitUntil(func() bool { return !m.locked && m.readers == 0 }, fmt.Sprintf("Lock of mutex %p (held: writer=%v readers=%d)", p, m.locked, m.readers))
 	m.locked = true
 	m.owner = S.cur.id
+	raceAcquire(p)
+	raceAcquire(rwReaders{p})
 }
 
 func mutexTryLock(p *value) bool {
 	m := mutexOf(p)
 	if !m.locked && m.readers == 0 {
 		m.locked = true
+		raceAcquire(p)
+		raceAcquire(rwReaders{p})
 		return true
 	}
 	return false
@@ -601,6 +623,7 @@ func mutexUnlock(p *value) {
 		panic(pathEnd{"fatal", "sync: unlock of unlocked mutex"})
 	}
 	m.locked = false
+	raceRelease(p)
 }
 
 func mutexRLock(p *value) {
@@ -608,6 +631,7 @@ func mutexRLock(p *value) {
 	S.switchPoint("rlock")
 	S.waitUntil(func() bool { return !m.locked && m.wwaiting == 0 }, fmt.Sprintf("RLock of rwmutex %p (writer=%v, writers waiting=%d, readers=%d)", p, m.locked, m.wwaiting, m.readers))
 	m.readers++
+	raceAcquire(p)
 }
 
 func mutexRUnlock(p *value) {
@@ -616,6 +640,7 @@ func mutexRUnlock(p *value) {
 		panic(pathEnd{"fatal", "sync: RUnlock of unlocked RWMutex"})
 	}
 	m.readers--
+	raceRelease(rwReaders{p})
 }
 
 func wgOf(p *value) *wgState {
